@@ -77,7 +77,7 @@ def _accepts_multiblock(spec, dk, opts, n) -> bool:
     if key not in _MULTI:
         try:
             with torch.no_grad():
-                out = C.private(C.build_decoder(spec, dk, opts))(torch.ones(1, 2 * n) if dk in C.SOFT_DECODERS else torch.zeros(1, 2 * n))
+                out = C.private_decoder(spec, dk, opts)(torch.ones(1, 2 * n) if dk in C.SOFT_DECODERS else torch.zeros(1, 2 * n))
             _MULTI[key] = isinstance(out, torch.Tensor)
         except Exception:
             _MULTI[key] = False
